@@ -2803,6 +2803,16 @@ def _put_slice_Compare__all(
 
         start_old_right = start + fsbody.stop  # because of extra comparator which is not copied in the case of op_side_left=False
 
+        if is_first:  # pure insert at start will have offset the zero-length `left` and `ops[0]` placeholders along with the old first element, put them back to start of self (which does not move) because they bound the search for opening pars of the new first element
+            lineno = ast.lineno
+            col_offset = ast.col_offset
+
+            for a in (ast.left, ops[0]):
+                a.lineno = a.end_lineno = lineno
+                a.col_offset = a.end_col_offset = col_offset
+
+                a.f._touch()
+
     for i in range(start_old_right, len(body)):  # for fix before restoring to normal Compare structure
         body[i].f.pfield = astfield('comparators', i)
         ops[i].f.pfield = astfield('ops', i)
